@@ -115,4 +115,4 @@ class MetricSeeds:
 
 
 TARGETS = {"codebasin.report:divergence": MetricSeeds(),
-           "codebasin.finder:ParserState.get_setmap": Determinism("determinism", ("multi", "dupes", "links", "mixed", "linkinc", "redefine"), quick_n=12, thorough_n=80)}
+           "codebasin.finder:ParserState.get_setmap": Determinism("determinism", ("multi", "dupes", "links", "mixed", "linkinc", "redefine", "missing"), quick_n=12, thorough_n=80)}
